@@ -392,6 +392,12 @@ impl Node {
         };
 
         self.cancel_reorder_timeout();
+        /* A new node birth invalidates the births of its devices, they are birthed again by the DBIRTHs that follow */
+        for x in self.devices.values_mut() {
+            if x.lifecycle_state == LifecycleState::Birthed {
+                x.set_stale();
+            }
+        }
         self.birth_timestamp = birth.timestamp;
         self.lifecycle_state = LifecycleState::Birthed;
         self.bdseq = birth.bdseq;
